@@ -248,6 +248,11 @@ impl Ctx {
         let mut i = self.inner.lock().unwrap();
         i.sets.entry(k.to_string()).or_default().insert(h);
     }
+    /// true while fewer than 3 samples were recorded (engines sample their first cases
+    /// unconditionally so that an evidence file never lacks samples)
+    pub fn want_sample(&self) -> bool {
+        self.inner.lock().unwrap().samples.len() < 3
+    }
     pub fn sample(&self, v: Value) {
         let mut i = self.inner.lock().unwrap();
         if i.samples.len() < i.sample_cap {
